@@ -364,6 +364,20 @@ def check_array_methods(seed):
                     except Exception as e:
                         out.append((key, dict(kind="helper-exception", detail="%s raised %s" % (key, e))))
                         continue
+                    # the caller owns what it got: changing it must not change later answers
+                    try:
+                        idx_copy = list(idx)
+                        idx.append((y, x))
+                        idx.sort()
+                        nb_len = len(nb)
+                        again_idx = arr.four_neighbor_indices(y, x) if form == "two" else arr.four_neighbor_indices((y, x))
+                        again_nb = arr.four_neighbors(y, x) if form == "two" else arr.four_neighbors((y, x))
+                        if sorted(again_idx) != want or sorted(id(e_) for e_ in again_nb) != sorted(id(arr[p]) for p in want):
+                            out.append((key, dict(kind="neighbours-depend-on-history", detail="%s: after the caller modified the list it had received, a second call gives %s" % (key, sorted(again_idx)))))
+                        idx = idx_copy
+                    except Exception as e:
+                        out.append((key, dict(kind="helper-exception", detail="%s second call raised %s" % (key, e))))
+                        continue
                     if sorted(idx) != want:
                         out.append((key, dict(kind="neighbour-indices", detail="%s gives %s, expected %s" % (key, sorted(idx), want))))
                     elif sorted(id(e_) for e_ in nb) != sorted(id(arr[p]) for p in want):
